@@ -179,6 +179,54 @@ def main() -> int:
             spec_failures.append({"suite": "repetition-in-process", "sql": t, "dialect": d, "first_answer": a, "answer_after_other_runs": b,
                                   "other_runs": "the same text under tsql (with and without TSQL_NO_SEMICOLON) and sparksql",
                                   "spec": "the same script, dialect, metadata and configuration yield identical results in every repetition"})
+    # ---- the same metadata OBJECT across repetitions: runs in between (also ones that fail part-way after having created
+    # tables) must not change the answer the same script gets with the same provider ------------------------------------
+    from sqllineage.core.metadata.dummy import DummyMetaDataProvider
+    from sqllineage.runner import LineageRunner
+    from sqllineage.exceptions import SQLLineageException
+    import logging
+    import warnings as _w
+    logging.disable(logging.CRITICAL)
+
+    def obs(sql, prov, d):
+        try:
+            with _w.catch_warnings():
+                _w.simplefilter("ignore")
+                lr = LineageRunner(sql, dialect=d, metadata_provider=prov)
+                return "|".join([",".join(sorted(map(str, lr.source_tables))), ",".join(sorted(map(str, lr.target_tables))),
+                                 ";".join(sorted("<-".join(str(c) for c in reversed(pth)) for pth in lr.get_column_lineage()))])
+        except SQLLineageException as e:
+            return "ERR:" + type(e).__name__
+    md0 = {"main.src": ["a", "b"], "main.dim": ["k", "x"]}
+    probes2 = ["insert into main.report select * from main.staging",
+               "insert into main.report select a, x from main.staging join main.dim on 1 = 1",
+               "insert into main.report select * from main.src",
+               "insert into main.report select b, k from main.src, main.other",
+               "create table main.out as select * from main.staging s join main.dim d on s.k = d.k"]
+    creators = ["create table main.staging as select a, b from main.src", "create table main.other as select k, b from main.dim",
+                "create table main.src as select z from main.zz", "insert into main.staging (x, y) select a, b from main.src",
+                "create view main.staging as select k, x from main.dim"]
+    endings = ["", ";\nselect from where", ";\ncreate index i on main.src (a)", ";\nselect * from main.staging a full full join b",
+               ";\ndrop table main.staging", ";\nselect '{{' from t"]
+    dist["repetition_same_provider"] = 0
+    for d in ("ansi", "sparksql", "non-validating"):
+        for pr in probes2:
+            fresh = obs(pr, DummyMetaDataProvider(dict(md0)), d)
+            for cr in creators:
+                for en in endings:
+                    prov = DummyMetaDataProvider(dict(md0))
+                    a = obs(pr, prov, d)
+                    mid = obs(cr + en, prov, d)
+                    b = obs(pr, prov, d)
+                    ck.count()
+                    dist["repetition_same_provider"] += 1
+                    if not a.startswith("ERR"):
+                        ck.nontriv(("same-provider", d, pr, cr, en))
+                    if not (a == b == fresh):
+                        spec_failures.append({"suite": "repetition-same-provider", "dialect": d, "metadata": md0, "script": pr,
+                                              "run_in_between_on_the_same_provider_object": cr + en, "outcome_of_that_run": mid,
+                                              "answer_with_fresh_provider": fresh, "first_answer": a, "answer_after_the_other_run": b,
+                                              "spec": "the same script, dialect, metadata and configuration yield identical results in every repetition"})
     for kid, case in known_hits.items():
         if kid in known:
             ck.known(kid, known[kid]["what"] + " (e.g. %r)" % case["sql"][:120])
